@@ -16,6 +16,7 @@ import (
 	"os/exec"
 	"path/filepath"
 	"runtime"
+	"sort"
 	"strconv"
 	"strings"
 	"sync"
@@ -107,6 +108,8 @@ type script struct {
 	FrameOff int `json:"frame_off,omitempty"`
 	// FailOn: every request from FailAt on is answered FailKind (not only that one)
 	FailOn bool `json:"fail_on,omitempty"`
+	// FirstLagMs: the first two requests are answered this late
+	FirstLagMs int `json:"first_lag_ms,omitempty"`
 }
 
 type session struct {
@@ -215,6 +218,10 @@ func (sv *server) ServeHTTP(w http.ResponseWriter, r *http.Request) {
 	}
 	if s.sc.ServerLag > 0 {
 		time.Sleep(time.Duration(s.sc.ServerLag) * time.Microsecond)
+	}
+	if k < 2 && s.sc.FirstLagMs > 0 {
+		// the first answers are slow (longer than the worker's initial poll interval)
+		time.Sleep(time.Duration(s.sc.FirstLagMs) * time.Millisecond)
 	}
 	if k == s.sc.FailAt || (s.sc.FailOn && s.sc.FailAt >= 0 && k > s.sc.FailAt) {
 		s.mu.Lock()
@@ -354,6 +361,13 @@ func runSession(sv *server, cf base.ClientFactory, s *session, ca any) {
 	var once sync.Once
 	closeNow := func() { once.Do(func() { doClose(); close(closed) }) }
 
+	if closeKind != "at-request-strict" {
+		// no session shape needs more than a few seconds before its Close; a writer that sits in
+		// a Write behind a worker in its retry wait would otherwise keep an "after-write" close
+		// from ever happening (bounded: Close after 8 s at the latest)
+		watchdog := time.AfterFunc(8*time.Second, closeNow)
+		defer watchdog.Stop()
+	}
 	var wg sync.WaitGroup
 	writerDone := make(chan struct{})
 	// reader
@@ -724,10 +738,18 @@ func runGroup(r *vlib.Run, sv *server, cf base.ClientFactory, drivers chan *vlib
 			}
 			owner[id] = s.sc.Name
 		}
-		d := <-drivers
-		judge(r, d, s)
-		drivers <- d
 	}
+	var jw sync.WaitGroup
+	for _, s := range ss {
+		jw.Add(1)
+		go func(s *session) {
+			defer jw.Done()
+			d := <-drivers
+			judge(r, d, s)
+			drivers <- d
+		}(s)
+	}
+	jw.Wait()
 	r.Count("group", strconv.Itoa(sc.Group))
 }
 
@@ -941,7 +963,10 @@ func genScript(rng *vlib.Rng, i int) script {
 	}
 	sc.FreshBuf = rng.Intn(5) == 0
 	sc.FrameOff = rng.Intn(3)
-	if rng.Intn(12) == 0 {
+	if rng.Intn(15) == 0 {
+		sc.FirstLagMs = rng.Range(150, 400)
+	}
+	if rng.Intn(20) == 0 {
 		sc.Group = rng.Range(2, 3)
 		if sc.ServerLag == 0 {
 			sc.ServerLag = 300
@@ -1023,6 +1048,13 @@ func closeEverywhere() []script {
 		script{Name: "write-blocked-then-close", Writes: tiny, ReadSizes: []int{4096}, Reads: 0, Resp: []int{5}, Down: 100000,
 			FailAt: -1, Close: "when-write-blocks", NoFlush: true},
 	)
+	// a bridge whose first answers take longer than the initial poll interval (100 ms) and carry data
+	out = append(out,
+		script{Name: "slow-first-responses-250ms", Writes: []int{100, 50, 7}, ReadSizes: []int{4096}, Reads: -1,
+			Resp: []int{500, 300, 40, 9}, Down: 849, FailAt: -1, Close: "drained", NoFlush: true, FirstLagMs: 250},
+		script{Name: "slow-first-responses-400ms-no-writes-yet", Writes: []int{1}, ReadSizes: []int{64}, Reads: -1,
+			Resp: []int{1000, 2048, 5}, Down: 3053, FailAt: -1, Close: "drained", NoFlush: true, FirstLagMs: 400},
+	)
 	for off := 0; off < 3; off++ {
 		// every size meets every framing
 		out = append(out, script{Name: fmt.Sprintf("framing-sizes-%d", off), Writes: small, ReadSizes: []int{70000, 1000}, Reads: -1,
@@ -1035,7 +1067,7 @@ func closeEverywhere() []script {
 			Resp: []int{10, 0}, Down: 100, FailAt: -1, Close: "drained", ServerLag: 3000},
 	)
 	out = append(out,
-		script{Name: "three-max-bodies", Writes: []int{196608, 196608, 1}, ReadSizes: []int{4096}, Reads: -1, Resp: []int{65536}, Down: 200000, FailAt: -1, Close: "drained"},
+		script{Name: "three-max-bodies", Writes: []int{196608, 196608, 1}, ReadSizes: []int{50000}, Reads: -1, Resp: []int{65536}, Down: 140000, FailAt: -1, Close: "drained"},
 		script{Name: "fail-at-2", Writes: []int{100, 100, 100, 100}, ReadSizes: []int{4096}, Reads: -1, Resp: []int{10}, Down: 100, FailAt: 2, FailKind: "fail", Close: "after-fail"},
 		script{Name: "non200-from-1-close-in-retry-wait", Writes: []int{100}, ReadSizes: []int{4096}, Reads: -1, Resp: []int{10}, Down: 10, FailAt: 1, FailKind: "non200", FailOn: true, Close: "after-fail"},
 		script{Name: "non200-from-2-close-in-retry-wait", Writes: []int{7, 70000, 3}, ReadSizes: []int{100}, Reads: -1, Resp: []int{0, 5}, Down: 50, FailAt: 2, FailKind: "non200", FailOn: true, Close: "after-fail"},
@@ -1279,7 +1311,7 @@ func main() {
 		scripts = append(scripts, ce[len(ce)-1]) // the lingering session first: its wait overlaps the rest
 		scripts = append(scripts, ce[:len(ce)-1]...)
 		rng := vlib.NewRng(mixSeed(r.Seed))
-		n := r.Scale(100, 1200)
+		n := r.Scale(80, 1200)
 		for i := 0; i < n; i++ {
 			scripts = append(scripts, genScript(rng, i))
 		}
@@ -1291,11 +1323,15 @@ func main() {
 		scripts = append([]script{{Name: "non200-retry-same-body", Writes: []int{100, 50}, ReadSizes: []int{4096}, Reads: -1,
 			Resp: []int{10}, Down: 30, FailAt: 1, FailKind: "non200", Close: "at-request-strict:2"}}, scripts...)
 	}
+	tCanary := time.Now()
+	defer func() {}()
 	r.Case("canary", false)
 	if !canary(append([]script{}, closeEverywhere()[2], closeEverywhere()[9], closeEverywhere()[14], scripts[0])) {
 		r.Finish()
 	}
 
+	r.Notes["phase_canary_s"] = time.Since(tCanary).Seconds()
+	tMain := time.Now()
 	const par = 12
 	drivers := make(chan *vlib.Driver, par)
 	for i := 0; i < par; i++ {
@@ -1303,6 +1339,8 @@ func main() {
 	}
 	sem := make(chan struct{}, par)
 	var wg sync.WaitGroup
+	var slowMu sync.Mutex
+	var slow []string
 	newSession := func(id int, sc script) *session {
 		s := &session{id: id, sc: sc, sids: map[string]bool{}, allOK: true, closedAt: -1, reqSeen: make(chan int, 64), framings: map[string]int{}}
 		total := 0
@@ -1320,7 +1358,11 @@ func main() {
 			go func(i int, sc script) {
 				defer wg.Done()
 				defer func() { <-sem }()
+				t0 := time.Now()
 				runGroup(r, sv, cf, drivers, newSession, i, sc)
+				slowMu.Lock()
+				slow = append(slow, fmt.Sprintf("%06.2fs group: %s", time.Since(t0).Seconds(), sc.Name))
+				slowMu.Unlock()
 			}(i, sc)
 			continue
 		}
@@ -1328,13 +1370,30 @@ func main() {
 		go func(s *session) {
 			defer wg.Done()
 			defer func() { <-sem }()
+			t0 := time.Now()
 			runSession(sv, cf, s, nil)
+			t1 := time.Now()
 			d := <-drivers
 			judge(r, d, s)
 			drivers <- d
+			slowMu.Lock()
+			slow = append(slow, fmt.Sprintf("%06.2fs = [%d events, %d requests] %.2fs run + %.2fs validation: %s", time.Since(t0).Seconds(), len(s.log), s.nreq, t1.Sub(t0).Seconds(), time.Since(t1).Seconds(), func() string {
+				if t1.Sub(t0) > 5*time.Second {
+					b, _ := json.Marshal(s.sc)
+					return string(b)
+				}
+				return s.sc.Name
+			}()))
+			slowMu.Unlock()
 		}(s)
 	}
 	wg.Wait()
+	r.Notes["phase_sessions_s"] = time.Since(tMain).Seconds()
+	sort.Sort(sort.Reverse(sort.StringSlice(slow)))
+	if len(slow) > 6 {
+		slow = slow[:6]
+	}
+	r.Notes["slowest_sessions"] = slow
 	// polling stops: no worker goroutine may still be selecting / in a round trip
 	ok := waitFor(5*time.Second, func() bool { p, _, _ := workerGoroutines(); return p == 0 })
 	polling, parked, detail := workerGoroutines()
